@@ -262,7 +262,7 @@ theorem criteria_called_once (u : User α ε) (o : Oracles α δ) (c : Cfg α) (
       unfold classify; repeat' split
       all_goals rfl
     rw [this]
-    have hl := countK_ext (LogExt.trans ps.log ls.log)
+    have hl := countK_ext (LogExt.trans ps.log (ls.log.mono (fun _ h => h.notThresh)))
     rw [hl.1, hl.2]
     exact ⟨is.n_gtol, is.n_ftarget⟩
 
